@@ -117,6 +117,15 @@ def slice(ctx: fw.Ctx) -> fw.Outcome:
             if must is None:
                 must = governs_something(s2, pos)
             cases.append((name, pos, text, must, s2))
+    # always: no signature (or no tempo) at tick 0 while the first one sits on a "natural" place — a bar line or beat of the 4/4 a player
+    # would imply, tick 1, the resolution itself: nothing written later stands in for the missing tick-0 line
+    for res_ in (192, 480, 100):
+        for first in (res_ * 4, res_ * 8, res_ * 12, res_, res_ * 2, 1, res_ * 4 - 1):
+            for kind_ in ("TS", "B"):
+                sync_ = ([f"  {first} = TS 4", "  0 = B 120000"] if kind_ == "TS" else ["  0 = TS 4", f"  {first} = B 120000"]) + [f"  {first + res_} = TS 3"]
+                text = (f"[Song]\n{{\n  Resolution = {res_}\n}}\n[SyncTrack]\n{{\n" + "\n".join(sync_) + "\n}\n[Events]\n{\n}\n[ExpertSingle]\n{\n"
+                        f"  {first} = N 0 0\n}}\n")
+                cases.append((f"first-{kind_}-off-zero", 0, text, True, None))
     a, b = common.run_charts([(c[2], None) for c in cases])
     for (name, pos, text, must, s2), x, y in zip(cases, a, b):
         rp = {"op": "corrupt", "text": text, "corruption": name, "position": pos, "must_fail": must}
